@@ -7,6 +7,7 @@
  D5 deletion by index set: sorted copy, descending traversal, range guard
  D6 owners call the list operation first and notify only after it returned normally
 """
+import re
 from .facts import kids, strip, walk, is_call, render, local_inits, AnalysisBroken
 from . import e1
 
@@ -23,12 +24,12 @@ FIELD = PL + "::parameters_"
 
 
 def _loops(f):
-    """ForStmt nodes of the function body, outermost only, in source order"""
+    """loop statements of the function body (for / range-for / while), outermost only, in source order"""
     out = []
 
     def rec(n):
         for c in kids(n):
-            if c["k"] == "ForStmt":
+            if c["k"] in ("ForStmt", "CXXForRangeStmt", "WhileStmt"):
                 out.append(c)
             else:
                 rec(c)
@@ -36,22 +37,59 @@ def _loops(f):
     return out
 
 
+def _loop_head(f, loop):
+    cfg = f.cfg
+    for b, blk in cfg.blocks.items():
+        if blk.get("term") == loop["id"] and len(cfg.succ[b]) >= 2:
+            return b
+    if "cond" in loop:
+        return cfg.stmt_block(f.nodes[loop["cond"]])
+    return None
+
+
 def _loop_range(f, loop, sub):
+    """canonical description of what the loop runs over: ('whole', container text, element token) for the three spellings of
+    'every element of X' (range-for, begin()..end() iterators, 0..size() index), otherwise ('other', text, None)"""
+    if loop["k"] == "CXXForRangeStmt":
+        ri = f.nodes.get(loop["rangeinit"]) if isinstance(loop.get("rangeinit"), int) else loop.get("rangeinit")
+        lv = loop.get("loopvar")
+        lv = f.nodes.get(lv) if isinstance(lv, int) else lv
+        name = (lv.get("decls") or [lv])[0].get("name") if lv else None
+        return ("whole", render(ri, sub).replace("this.", "") if ri is not None else "?", ("\\b%s\\b" % name) if name else None)
     init = f.nodes.get(loop.get("init")) if "init" in loop else None
     cond = f.nodes.get(loop.get("cond")) if "cond" in loop else None
-    inc = f.nodes.get(loop.get("inc")) if "inc" in loop else None
-    it = None
-    if init is not None and init["k"] == "DeclStmt" and init["decls"]:
+    if init is not None and init["k"] == "DeclStmt" and init["decls"] and cond is not None:
         d = init["decls"][0]
-        it = (render(d.get("init")), d["name"])
-    return (it, render(cond) if cond else None, render(inc) if inc else None)
+        it, var = render(d.get("init"), sub), d["name"]
+        ct = render(cond, sub)
+        m = re.match(r"^(.*)\.begin\(\)$", it)
+        if m and ct in ("(%s < %s.end())" % (var, m.group(1)), "(%s != %s.end())" % (var, m.group(1))):
+            return ("whole", m.group(1).replace("this.", ""), "\\b%s\\b" % var)
+        m = re.match(r"^\((\w+) < (.*)\.size\(\)\)$", ct)
+        if m and m.group(1) == var and it in ("0", "0UL", "0U"):
+            return ("whole", m.group(2).replace("this.", ""), "%s[%s]" % (m.group(2), var))
+    return ("other", "%s; %s" % (render(init) if init else "", render(cond) if cond else ""), None)
+
+
+def _canon(text, rng):
+    """rendered expression with the loop's element spelled '@e' (so that the three loop spellings compare equal)"""
+    if rng[0] != "whole" or not rng[2]:
+        return text
+    tok = rng[2]
+    if tok.startswith("\\b"):
+        out = re.sub(r"\(\*%s\)|\*%s|%s" % (tok, tok, tok), "@e", text)
+    else:
+        out = text.replace("(*" + tok + ")", "@e").replace("*" + tok, "@e").replace(tok, "@e")
+    return out.replace("(@e)", "@e")
 
 
 def _filters(f, node, loop, sub):
     """branch facts that hold on every path from the loop head to `node` within one iteration
     (nested ifs and 'if (c) continue;' give the same facts); locals are resolved to their initialisers"""
     cfg = f.cfg
-    head = cfg.stmt_block(f.nodes[loop["cond"]])
+    head = _loop_head(f, loop)
+    if head is None:
+        return None
     body = e1.natural_loops(cfg).get(head, set())
     facts = e1.loop_facts(cfg, head, body)
     b = cfg.stmt_block(node)
@@ -60,11 +98,12 @@ def _filters(f, node, loop, sub):
         out.add((text, truth))
     # re-render with local substitution for comparison across loops
     res = set()
+    rng = _loop_range(f, loop, sub)
     for p in body:
         for s_ in cfg.succ[p]:
             for t, tr, nd in e1.edge_facts(cfg, p, s_):
-                if (t, tr) in out:
-                    res.add((render(nd, sub), tr))
+                if (t, tr) in out and "__begin" not in t and "__end" not in t:
+                    res.add((_canon(render(nd, sub), rng), tr))
     return res
 
 
@@ -74,7 +113,21 @@ def _d1(chk, fb):
     for name in names:
         f = fb.q1(PL + "::" + name)
         sub = local_inits(f)
+        # locals declared inside loop bodies (Parameter* p = &parameter(..)) are resolved as well
+        for n in f.all_nodes():
+            if n["k"] == "DeclStmt":
+                for d in n["decls"]:
+                    if d.get("init") is not None and d["id"] not in sub:
+                        ws = [w for w in f.all_nodes() if w["k"] in ("BinaryOperator", "CompoundAssignOperator") and w.get("op", "").endswith("=") and w["op"] not in ("==", "!=", "<=", ">=")
+                              and strip(kids(w)[0])["k"] == "DeclRefExpr" and strip(kids(w)[0])["decl"]["id"] == d["id"]]
+                        if not ws and ("*" in d["ty"] or "&" in d["ty"]) and "bpp::Parameter" in d["ty"] and "iterator" not in d["ty"]:
+                            sub[d["id"]] = d["init"]
         loops = _loops(f)
+        rng = {lp["id"]: _loop_range(f, lp, sub) for lp in loops}
+
+        def R(node, lp):
+            t = _canon(render(node, sub), rng[lp["id"]])
+            return t.replace("(*@e)", "@e").replace("&", "").replace("(*", "(").replace("*", "")
         # validation sites: throw of ConstraintException guarded by hasConstraint && !isCorrect
         checks = []
         for lp in loops:
@@ -89,46 +142,57 @@ def _d1(chk, fb):
                     cond = strip(f.nodes[n["cond"]])
                     T = V = None
                     if cond["k"] == "BinaryOperator" and cond["op"] == "&&":
-                        a, b = [strip(x) for x in kids(cond)]
-                        if is_call(a) and a["callee"]["name"] == "hasConstraint" and b["k"] == "UnaryOperator" and b["op"] == "!":
-                            c = strip(kids(b)[0])
+                        a_, b_ = [strip(x) for x in kids(cond)]
+                        if is_call(a_) and a_["callee"]["name"] == "hasConstraint" and b_["k"] == "UnaryOperator" and b_["op"] == "!":
+                            c = strip(kids(b_)[0])
                             if is_call(c) and c["callee"]["name"] == "isCorrect":
                                 gc = strip(f.obj(c))
-                                # obj of isCorrect: T->getConstraint() (through shared_ptr deref)
                                 while gc is not None and is_call(gc) and gc["callee"]["name"] in ("operator->", "operator*", "get"):
                                     gc = strip(f.obj(gc))
                                 if is_call(gc) and gc["callee"]["name"] in ("getConstraint", "constraint"):
-                                    T1 = render(f.obj(a), sub)
-                                    T2 = render(f.obj(gc), sub)
+                                    T1 = R(f.obj(a_), lp)
+                                    T2 = R(f.obj(gc), lp)
                                     if T1 == T2:
                                         T = T1
-                                        V = render(f.args(c)[0], sub)
+                                        V = R(f.args(c)[0], lp)
                     checks.append((lp, n, T, V))
         applies = []
         for lp in loops:
             for n in walk(lp):
                 if is_call(n) and n["callee"]["name"] == "setValue" and n["callee"].get("cls", "").startswith("bpp::Parameter"):
-                    applies.append((lp, n, render(f.obj(n), sub), render(f.args(n)[0], sub)))
+                    applies.append((lp, n, R(f.obj(n), lp), R(f.args(n)[0], lp)))
+        anywhere = [n for n in f.calls() if n["callee"]["name"] == "setValue" and n["callee"].get("cls", "").startswith("bpp::Parameter")]
+        delegates = [n for n in f.calls() if n["callee"].get("inrepo") and n["callee"].get("cls") == PL and n["callee"]["name"] not in ("hasParameter", "parameter", "getParameter", "size", "whichParameterHasName")]
         if name == "testParametersValues":
             # sibling: has the validation loop, applies nothing
-            if checks and all(c[2] for c in checks) and not applies:
+            if checks and all(c[2] for c in checks) and not anywhere:
                 chk.proved("D1", f.key, "validation-sibling", f.loc(), "validates %s against %s's constraint" % (checks[0][3], checks[0][2]))
                 n_ok += 1
+            elif anywhere:
+                chk.refuted("D1", f.key, "validation-sibling", f.loc(anywhere[0]), "testParametersValues stores a value (%s): the test-only sibling must not modify the list" % render(anywhere[0])[:60])
             else:
-                chk.refuted("D1", f.key, "validation-sibling", f.loc(), "testParametersValues no longer tests the target's constraint on the candidate value")
+                chk.unknown("D1", f.key, "validation-sibling", f.loc(), "validation not in the recognised form")
             continue
         if not applies:
-            chk.refuted("D1", f.key, "no-apply", f.loc(), "bulk setter never calls Parameter::setValue")
+            if anywhere or delegates:
+                chk.unknown("D1", f.key, "validate-then-apply", f.loc(), "stores are not inside a recognised loop (or are delegated): %s" % [render(x)[:40] for x in (anywhere + delegates)[:2]])
+            else:
+                chk.refuted("D1", f.key, "no-apply", f.loc(), "bulk setter never calls Parameter::setValue, directly or through another list operation")
             continue
         if not checks:
-            chk.refuted("D1", f.key, "validate-then-apply", f.loc(), "bulk setter applies values without a validation pass (no ConstraintException guard found)")
+            helpers = [n for n in f.calls() if n["callee"]["name"] in ("testParametersValues",) or (n["callee"].get("inrepo") and "isCorrect" in " ".join(c2["callee"]["name"] for t in fb.targets(n) if t.body is not None for c2 in t.calls()))]
+            if helpers:
+                chk.unknown("D1", f.key, "validate-then-apply", f.loc(), "validation delegated to %s" % render(helpers[0])[:50])
+            else:
+                chk.refuted("D1", f.key, "validate-then-apply", f.loc(), "bulk setter applies values without a validation pass (no constraint test that throws before the stores, here or in a callee)")
             continue
         for lp2, call, T2, V2 in applies:
             ok = None
-            why = []
+            why = []          # definite defects
+            unsure = []       # forms that could not be compared
             for lp1, ifn, T1, V1 in checks:
                 if T1 is None:
-                    why.append("validation condition at %s is not 'T->hasConstraint() && !T->getConstraint()->isCorrect(V)'" % f.loc(ifn))
+                    unsure.append("validation condition at %s is not in the form 'T->hasConstraint() && !T->getConstraint()->isCorrect(V)'" % f.loc(ifn))
                     continue
                 if lp1 is lp2:
                     why.append("validation and store share one loop (%s): earlier entries are already stored when a later one is rejected" % f.loc(lp1))
@@ -136,8 +200,12 @@ def _d1(chk, fb):
                 if loops.index(lp1) > loops.index(lp2):
                     why.append("validation loop follows the apply loop")
                     continue
-                if _loop_range(f, lp1, sub) != _loop_range(f, lp2, sub):
-                    why.append("validation loop %s and apply loop %s iterate different ranges" % (_loop_range(f, lp1, sub), _loop_range(f, lp2, sub)))
+                r1, r2 = rng[lp1["id"]], rng[lp2["id"]]
+                if r1[0] != "whole" or r2[0] != "whole":
+                    unsure.append("loop range not in a recognised form (%s / %s)" % (r1[1][:40], r2[1][:40]))
+                    continue
+                if r1[1] != r2[1]:
+                    why.append("validation loop runs over %s, the apply loop over %s" % (r1[1], r2[1]))
                     continue
                 if T1 != T2:
                     why.append("validation tests the constraint of '%s' but the value is stored into '%s'" % (T1, T2))
@@ -145,14 +213,17 @@ def _d1(chk, fb):
                 if V1 != V2:
                     why.append("validation tests the value '%s' but '%s' is stored" % (V1, V2))
                     continue
-                f1 = set(_filters(f, ifn, lp1, sub))
-                f2 = set(_filters(f, call, lp2, sub))
-                if not f1 <= f2:
-                    why.append("validation is restricted by %s which the apply pass is not" % sorted(f1 - f2))
+                f1 = _filters(f, ifn, lp1, sub)
+                f2 = _filters(f, call, lp2, sub)
+                if f1 is None or f2 is None:
+                    unsure.append("loop filters not readable")
+                    continue
+                if not set(f1) <= set(f2):
+                    why.append("validation is restricted by %s which the apply pass is not" % sorted(set(f1) - set(f2)))
                     continue
                 # the validation loop must dominate the apply loop (completed before the first store)
                 cfg = f.cfg
-                b1, b2 = cfg.stmt_block(f.nodes[lp1["cond"]]), cfg.stmt_block(call)
+                b1, b2 = _loop_head(f, lp1), cfg.stmt_block(call)
                 if b1 is None or b2 is None or not cfg.dominates(b1, b2):
                     why.append("validation loop does not dominate the store")
                     continue
@@ -161,8 +232,10 @@ def _d1(chk, fb):
             if ok:
                 chk.proved("D1", f.key, "validate-then-apply", f.loc(call), "store %s.setValue(%s) preceded by a complete validation pass on the same target and value" % (T2, V2))
                 n_ok += 1
+            elif why and not unsure:
+                chk.refuted("D1", f.key, "validate-then-apply", f.loc(call), "; ".join(why), witness={"store": "%s.setValue(%s)" % (T2, V2)})
             else:
-                chk.refuted("D1", f.key, "validate-then-apply", f.loc(call), "; ".join(why) or "no matching validation pass", witness={"store": "%s.setValue(%s)" % (T2, V2)})
+                chk.unknown("D1", f.key, "validate-then-apply", f.loc(call), "; ".join(unsure + why) or "no matching validation pass recognised")
     chk.floor("D1", "bulk setters with a matching validation pass", n_ok + sum(1 for s in chk.sites if s["rule"] == "D1" and s["verdict"] != "PROVED"), 4)
 
 
@@ -178,17 +251,39 @@ def _d2(chk, fb):
     if not (stores and pushes and flags):
         return
     st = stores[0]
-    obj, val = render(f.obj(st), sub), render(f.args(st)[0], sub)
-    differs = {"(%s.getValue() != %s)" % (obj, val), "(%s != %s.getValue())" % (val, obj)}
+    for n_ in f.all_nodes():
+        if n_["k"] == "DeclStmt":
+            for d_ in n_["decls"]:
+                if d_.get("init") is not None and d_["id"] not in sub and ("*" in d_["ty"] or "&" in d_["ty"]) and "bpp::Parameter" in d_["ty"] and "iterator" not in d_["ty"]:
+                    sub[d_["id"]] = d_["init"]
+    LOOPK = ("ForStmt", "CXXForRangeStmt", "WhileStmt")
 
     def guarded(n):
-        lp = f.enclosing(n, ("ForStmt",))
-        return any(c in differs and s for c, s in _filters(f, n, lp, sub)) if lp else False
+        """True / False / None (not comparable)"""
+        lp = f.enclosing(n, LOOPK)
+        if not lp:
+            return None
+        rg = _loop_range(f, lp, sub)
+        obj, val = _canon(render(f.obj(st), sub), rg), _canon(render(f.args(st)[0], sub), rg)
+        differs = {"(%s.getValue() != %s)" % (obj, val), "(%s != %s.getValue())" % (val, obj)}
+        fl = _filters(f, n, lp, sub)
+        if fl is None:
+            return None
+        if any(c in differs and s_ for c, s_ in fl):
+            return True
+        # some other value comparison of the two guards it?  then the form is simply not recognised
+        if any(".getValue()" in c and ("!=" in c or "==" in c) for c, s_ in fl):
+            return None
+        return False
+    obj0, val0 = render(f.obj(st), sub), render(f.args(st)[0], sub)
     for what, n in [("store", st), ("flag", flags[-1]), ("position", pushes[0])]:
-        if guarded(n):
-            chk.proved("D2", f.key, "under-value-differs:" + what, f.loc(n), "%s written under '%s'" % (what, sorted(differs)[0]))
+        g = guarded(n)
+        if g:
+            chk.proved("D2", f.key, "under-value-differs:" + what, f.loc(n), "%s written under '%s.getValue() != %s'" % (what, obj0, val0))
+        elif g is None:
+            chk.unknown("D2", f.key, "under-value-differs:" + what, f.loc(n), "guard of the %s not in a comparable form" % what)
         else:
-            chk.refuted("D2", f.key, "under-value-differs:" + what, f.loc(n), "%s is not written under the test that target and source values differ (%s)" % (what, sorted(differs)[0]))
+            chk.refuted("D2", f.key, "under-value-differs:" + what, f.loc(n), "%s is not written under the test that target and source values differ (%s.getValue() != %s)" % (what, obj0, val0))
     # flag and position must be written exactly where the store happens
     b = {cfg.stmt_block(st)}
     same = cfg.stmt_block(flags[-1]) in b
@@ -203,8 +298,11 @@ def _d2(chk, fb):
         return
     cid = pushed["decl"]["id"]
     incs = [n for n in walk(f.body) if n["k"] in ("UnaryOperator", "CompoundAssignOperator") and n.get("op") in ("++", "+=") and strip(kids(n)[0])["k"] == "DeclRefExpr" and strip(kids(n)[0])["decl"]["id"] == cid]
-    lp = f.enclosing(pushes[0], ("ForStmt",))
-    head = cfg.stmt_block(f.nodes[lp["cond"]])
+    lp = f.enclosing(pushes[0], LOOPK)
+    head = _loop_head(f, lp) if lp else None
+    if head is None:
+        chk.unknown("D2", f.key, "position-lockstep", f.loc(pushes[0]), "loop around the position record not recognised")
+        return
     loops = e1.natural_loops(cfg)
     body = loops.get(head, set())
     incb = {cfg.stmt_block(n) for n in incs}
@@ -361,31 +459,56 @@ def _d5(chk, fb):
     chk.floor("D5", "erase sites", len(erases), 1)
     sorts = [n for n in f.calls() if n["callee"]["qname"] in ("std::sort", "std::stable_sort")]
     if copy is None:
-        chk.refuted("D5", f.key, "sorted-copy", f.loc(), "indices are not copied into a local before sorting (the caller's vector may be unsorted)")
+        others = [d for n in walk(f.body) if n["k"] == "DeclStmt" for d in n["decls"] if "std::vector" in d["ty"] or "std::set" in d["ty"]]
+        if others or not erases:
+            chk.unknown("D5", f.key, "sorted-copy", f.loc(), "the index set is not copied in the recognised way")
+        else:
+            chk.refuted("D5", f.key, "sorted-copy", f.loc(), "indices are not copied into a local before sorting (the caller's vector may be unsorted)")
         return
     cname = copy["name"]
-    ok_sort = any([render(x) for x in f.args(s)] == ["%s.begin()" % cname, "%s.end()" % cname] for s in sorts)
-    if ok_sort:
-        chk.proved("D5", f.key, "sorted-copy", f.loc(sorts[0]), "std::sort over the whole local copy '%s'" % cname)
+    sort_dir = None
+    for s_ in sorts:
+        a_ = [render(x) for x in f.args(s_)]
+        if a_[:2] == ["%s.begin()" % cname, "%s.end()" % cname]:
+            sort_dir = "asc" if len(a_) == 2 else ("desc" if "greater" in a_[2] else ("asc" if "less" in a_[2] else None))
+        elif a_[:2] == ["%s.rbegin()" % cname, "%s.rend()" % cname] and len(a_) == 2:
+            sort_dir = "desc"
+    if sort_dir:
+        chk.proved("D5", f.key, "sorted-copy", f.loc(sorts[0]), "std::sort over the whole local copy '%s' (%s)" % (cname, "ascending" if sort_dir == "asc" else "descending"))
+    elif sorts:
+        chk.unknown("D5", f.key, "sorted-copy", f.loc(sorts[0]), "sort call not in a recognised form")
     else:
-        chk.refuted("D5", f.key, "sorted-copy", f.loc(), "the local index copy is not sorted ascending as a whole")
+        chk.refuted("D5", f.key, "sorted-copy", f.loc(), "the local index copy is never sorted: indices are erased in the caller's order, each erase shifting the positions of the later ones")
     for e in erases:
         lp = f.enclosing(e, ("ForStmt", "WhileStmt", "CXXForRangeStmt"))
-        desc = False
+        trav = None
         if lp is not None and lp["k"] == "ForStmt":
             init = f.nodes.get(lp.get("init"))
             cond = f.nodes.get(lp.get("cond"))
-            if init is not None and init["k"] == "DeclStmt":
+            if init is not None and init["k"] == "DeclStmt" and init["decls"]:
                 it = render(init["decls"][0].get("init"))
-                desc = it == "%s.rbegin()" % cname and cond is not None and "%s.rend()" % cname in render(cond)
-        if desc and ok_sort:
+                ct = render(cond) if cond is not None else ""
+                if it == "%s.rbegin()" % cname and "%s.rend()" % cname in ct:
+                    trav = "rev"
+                elif it == "%s.begin()" % cname and "%s.end()" % cname in ct:
+                    trav = "fwd"
+                elif it in ("0", "0UL") and "%s.size()" % cname in ct:
+                    trav = "fwd"
+        elif lp is not None and lp["k"] == "CXXForRangeStmt":
+            ri = f.nodes.get(lp["rangeinit"]) if isinstance(lp.get("rangeinit"), int) else lp.get("rangeinit")
+            if ri is not None and render(ri) == cname:
+                trav = "fwd"
+        descending = None if (sort_dir is None or trav is None) else ((sort_dir, trav) in (("asc", "rev"), ("desc", "fwd")))
+        if descending:
             # sort must precede the loop
             if all(e1.before_in_function(cfg, s, e) for s in sorts):
-                chk.proved("D5", f.key, "descending-traversal", f.loc(e), "erase inside a reverse traversal of the sorted copy")
+                chk.proved("D5", f.key, "descending-traversal", f.loc(e), "erase walks the indices from the largest to the smallest (%s sort, %s traversal)" % (sort_dir, trav))
             else:
                 chk.refuted("D5", f.key, "descending-traversal", f.loc(e), "sort does not precede the erase loop")
+        elif descending is None:
+            chk.unknown("D5", f.key, "descending-traversal", f.loc(e), "sort order / traversal direction not recognised")
         else:
-            chk.refuted("D5", f.key, "descending-traversal", f.loc(e), "indices are not erased from the largest to the smallest: an erase shifts the positions of later indices")
+            chk.refuted("D5", f.key, "descending-traversal", f.loc(e), "indices are erased from the smallest to the largest (%s sort, %s traversal): an erase shifts the positions of later indices" % (sort_dir, trav))
         idx = None
         for x in walk(e):
             if x["k"] in ("CXXStaticCastExpr", "CStyleCastExpr", "CXXFunctionalCastExpr"):
@@ -451,6 +574,38 @@ def _d6(chk, fb):
     chk.floor("D6", "owner entry points", n, 4)
 
 
+def _d7(chk, fb):
+    """'adding a parameter whose name is already present is refused': every ParameterList::addParameter* overload either
+    throws ParameterException under hasParameter(<name of the added parameter>) before inserting, or delegates each
+    element to an overload that does; it never routes through the update-on-collision functions (share*/include*)"""
+    PL = "bpp::ParameterList"
+    fs = [f for f in fb.concrete_fns() if f.cls == PL and f.body is not None and f.name in ("addParameter", "addParameters")]
+    chk.floor("D7", "ParameterList::addParameter* overloads", len(fs), 3)
+    for f in sorted(fs, key=lambda x: x.key):
+        cfg = f.cfg
+        soft = [c for c in f.calls() if c["callee"]["name"] in ("shareParameter", "shareParameters", "includeParameters", "setParameterValue", "setParameter")]
+        deleg = [c for c in f.calls() if c["callee"]["name"] in ("addParameter", "addParameters") and c["callee"].get("cls") == PL]
+        throws = []
+        for t in walk(f.body):
+            if t["k"] == "CXXThrowExpr" and "ParameterException" in (str(t.get("thrown")) + render(t)):
+                iff = f.enclosing(t, ("IfStmt",))
+                if iff is not None and "hasParameter(" in render(f.nodes[iff["cond"]]) and not render(f.nodes[iff["cond"]]).startswith("(!"):
+                    throws.append((t, iff))
+        ins = [c for c in f.calls() if c["callee"]["name"] in ("push_back", "emplace_back", "insert") and "obj" in c and "parameters_" in render(f.obj(c))]
+        if soft:
+            chk.refuted("D7", f.key, "add-refuses-duplicates", f.loc(soft[0]), "%s goes through %s, which turns a name collision into a value update: a duplicate name is silently accepted and the existing value overwritten instead of being refused" % (
+                f.name, soft[0]["callee"]["name"]), witness={"history": "list {a=1}; addParameter(new Parameter(\"a\", 5))"})
+        elif ins and throws and all(cfg.dominates(cfg.stmt_block(f.nodes[iff["cond"]]), cfg.stmt_block(i_)) for i_ in ins for _, iff in throws[:1]):
+            chk.proved("D7", f.key, "add-refuses-duplicates", f.loc(throws[0][0]), "throws ParameterException under hasParameter(name) before the insertion")
+        elif deleg and not ins:
+            chk.proved("D7", f.key, "add-refuses-duplicates", f.loc(deleg[0]), "delegates to %s" % deleg[0]["callee"]["name"])
+        elif ins:
+            chk.refuted("D7", f.key, "add-refuses-duplicates", f.loc(ins[0]), "%s inserts into parameters_ without a preceding 'hasParameter(name) -> throw ParameterException': a second parameter of the same name is accepted" % f.name,
+                        witness={"history": "addParameter twice with the same name"})
+        else:
+            chk.unknown("D7", f.key, "add-refuses-duplicates", f.loc(), "neither an insertion nor a delegation recognised")
+
+
 def run(chk, fb, tier):
     chk.rule("D1", "bulk setters: a validation loop (target's constraint, value later stored, same range and filter) dominates the apply loop and is disjoint from it")
     chk.rule("D2", "matchParametersValues: flag, store and position recorded together under 'values differ'; the position counter advances exactly once per iteration, after the push")
@@ -464,6 +619,8 @@ def run(chk, fb, tier):
     _d3_d4(chk, fb)
     _d5(chk, fb)
     _d6(chk, fb)
+    chk.rule("D7", "ParameterList::addParameter* refuse an existing name (throw under hasParameter before inserting, or delegate to an overload that does) and never go through the update-on-collision functions")
+    _d7(chk, fb)
     from . import copyrule
     chk.rule("DC", "copy constructor and copy assignment copy the same members; operator= empties a member container before re-populating it; copy functions never assign through a stored shared pointer")
     copyrule.check(chk, fb, "DC", lambda c: c["file"].endswith(("Bpp/Numeric/ParameterList.h",)), floor=1)
